@@ -1,5 +1,6 @@
 SPECIFICATION Spec
 CONSTANTS
+  Mode = "seq"
   OptToks <- Opt_All
   MaxOpts = 9
   MinOpts = 5
